@@ -347,3 +347,122 @@ func runL9(c *core.Ctx) {
 		c.OK("ast/option-literals", token.NoPos, "%d keyed option literal(s) examined", n)
 	}
 }
+
+// U10: the logical length of a Node is not recomputed from the physical length of its table in
+// a mutator. linkedNodes / linkedPairs keep soft-deleted slots, so their Len() counts holes; the
+// node's own length l does not. Only the functions that install a fresh table (set*/new*) may
+// take l from the table.
+//
+// K15: a slice header is emptied as a whole. Setting Ptr = nil (and Len = 0) while Cap keeps
+// its value leaves a header that claims capacity it does not have; the next user that checks
+// `need > Cap` skips the allocation and writes through nil.
+
+func init() {
+	register(&core.Rule{ID: "U10", Min: 2, Arm64: true,
+		Doc: "In package ast an assignment of a Node's length field l from the Len() of its node/pair table occurs only in functions that install a table (names starting with set or new); mutators that add or remove one element update l by one, because the table's Len() also counts soft-deleted slots.",
+		Run: runU10})
+	register(&core.Rule{ID: "K15", Min: 0, Arm64: true,
+		Doc: "rt.GoSlice headers are emptied as a whole: in every block of non-test code that assigns nil to the Ptr field of a GoSlice value, the Cap field of the same value is assigned in that block too; a header with Ptr == nil and a stale Cap makes the next `count > Cap` test skip the allocation (the sorted map encoder then writes its first pair through nil).",
+		Run: runK15})
+}
+
+func runU10(c *core.Ctx) {
+	p := c.Prog
+	pk := p.Pkg("ast")
+	n := 0
+	for _, fd := range core.FuncDecls(pk) {
+		if fd.Body == nil {
+			continue
+		}
+		fn := core.FuncName(pk, fd)
+		k := 0
+		ast.Inspect(fd.Body, func(nd ast.Node) bool {
+			as, ok := nd.(*ast.AssignStmt)
+			if !ok || len(as.Lhs) != 1 || len(as.Rhs) != 1 {
+				return true
+			}
+			se, ok := as.Lhs[0].(*ast.SelectorExpr)
+			if !ok || se.Sel.Name != "l" {
+				return true
+			}
+			if t := p.TypeOf(se.X); t == nil || !strings.HasSuffix(types.TypeString(t, nil), "ast.Node") {
+				return true
+			}
+			if !strings.Contains(exprStr(as.Rhs[0]), ".Len()") {
+				return true
+			}
+			k++
+			n++
+			c.Analysed(fn)
+			cn := fn + "/length-from-table#" + itoa(k)
+			name := fd.Name.Name
+			if strings.HasPrefix(name, "set") || strings.HasPrefix(name, "new") {
+				c.OK(cn, as.Pos(), "%s installs the table and takes its length", name)
+			} else {
+				c.Bad(cn, as.Pos(), "%s recomputes the node's length from the table (%s): the table also counts unset slots, so after UnsetByIndex of a middle element followed by this call Len() is one too many and Index(i) behind the hole returns the deleted slot", name, exprStr(as.Rhs[0]))
+			}
+			return true
+		})
+	}
+	if n == 0 {
+		c.Undecided("ast/length-from-table", token.NoPos, "no assignment of Node.l from a table length found")
+	}
+}
+
+func runK15(c *core.Ctx) {
+	p := c.Prog
+	n := 0
+	for _, pk := range p.Pkgs {
+		for _, fd := range core.FuncDecls(pk) {
+			if fd.Body == nil || strings.HasSuffix(p.Fset.Position(fd.Pos()).Filename, "_test.go") {
+				continue
+			}
+			fn := core.FuncName(pk, fd)
+			k := 0
+			ast.Inspect(fd.Body, func(nd ast.Node) bool {
+				blk, ok := nd.(*ast.BlockStmt)
+				if !ok {
+					return true
+				}
+				nilPtr := map[string]token.Pos{}
+				capSet := map[string]bool{}
+				for _, st := range blk.List {
+					as, ok := st.(*ast.AssignStmt)
+					if !ok {
+						continue
+					}
+					for i, l := range as.Lhs {
+						se, ok := l.(*ast.SelectorExpr)
+						if !ok {
+							continue
+						}
+						t := p.TypeOf(se.X)
+						if t == nil || !strings.HasSuffix(strings.TrimPrefix(types.TypeString(t, nil), "*"), "rt.GoSlice") {
+							continue
+						}
+						base := exprStr(se.X)
+						switch se.Sel.Name {
+						case "Ptr":
+							if i < len(as.Rhs) && exprStr(as.Rhs[i]) == "nil" {
+								nilPtr[base] = as.Pos()
+							}
+						case "Cap":
+							capSet[base] = true
+						}
+					}
+				}
+				for base, pos := range nilPtr {
+					k++
+					n++
+					c.Analysed(fn)
+					cn := fn + "/emptied-header#" + itoa(k)
+					c.Check(capSet[base], cn, pos, "Ptr and Cap of "+base+" are reset together", base+".Ptr is set to nil while "+base+".Cap keeps its value: the next user that tests `count > Cap` believes the storage is there, skips the allocation and writes through the nil pointer")
+				}
+				return true
+			})
+		}
+	}
+	if n == 0 {
+		c.OK("goslice/emptied-header", token.NoPos, "no GoSlice header is emptied by hand")
+	}
+}
